@@ -57,11 +57,21 @@ def Kind.allows : Kind → ConvClass → Bool
   | .real, .real => true
   | _, _ => false
 
+/-- `str(v)` / `repr(v)` / `ascii(v)` work: everything but an `int` of more than 4300 decimal digits
+    (`sys.get_int_max_str_digits()`, Python 3.12; the sign does not count) -/
+def Prints : Value → Prop
+  | .int n => n.natAbs < 10 ^ 4300
+  | _ => True
+
+/-- `repr()` works on every attribute of the record, known to the logging package or not (`extra=…`): this is what a
+    specifier without `(key)` — it formats the whole attribute dictionary — needs -/
+def Printable (r : Dict) : Prop := ∀ k v, r k = some v → Prints v
+
 /-- the values an ORDINARY record has for an attribute of each kind (`msg`, normally the message format string, is
     listed as text; `Kind.admitsWide` / `OrdinaryWide` drop this and other inessential restrictions) -/
 def Kind.admits : Kind → Value → Prop
   | .text, v => ∃ s, v = .str s
-  | .object, _ => True
+  | .object, v => Prints v
   | .smallInt, v => ∃ n, v = .int n ∧ 0 ≤ n ∧ n < 0x110000
   | .bigInt, v => ∃ n, v = .int n ∧ 0 ≤ n ∧ n < 2 ^ 64
   | .real, v => v = .float .finite
@@ -83,6 +93,7 @@ def OrdinaryFor (fmt : Str) (r : Dict) : Prop := RecordFor Kind.admits fmt r
 def Kind.admitsB : Kind → Value → Bool
   | .text, .str _ => true
   | .text, _ => false
+  | .object, .int n => decide (n.natAbs < 10 ^ 4300)
   | .object, _ => true
   | .smallInt, .int n => decide (0 ≤ n ∧ n < 0x110000)
   | .smallInt, _ => false
@@ -105,11 +116,12 @@ def ordinaryTableFor (fmt : Str) (tbl : List (Str × Value)) : Bool :=
     | none => false)
 
 /-- the weakest requirement on the values under which accepted formats are safe: attributes on which only `s r a` is
-    accepted may hold anything; ints only have to be convertible to `float`; `%c` is the one conversion that needs the
-    small range -/
+    accepted may hold anything that prints (anything but an `int` of more than 4300 digits); ints only have to be
+    convertible to `float` (which keeps them far below the 4300-digit limit of `%d` / `%s`); `%c` is the one conversion
+    that needs the small range -/
 def Kind.admitsWide : Kind → Value → Prop
-  | .text, _ => True
-  | .object, _ => True
+  | .text, v => Prints v
+  | .object, v => Prints v
   | .smallInt, v => ∃ n, v = .int n ∧ 0 ≤ n ∧ n < 0x110000
   | .bigInt, v => ∃ n, v = .int n ∧ -floatLimit < n ∧ n < floatLimit
   | .real, v => v = .float .finite
@@ -137,6 +149,15 @@ def PrecFits (cls : ConvClass) (p : Spec) : Prop :=
 def itemKey : Item → Option Str
   | .field key _ _ _ _ _ => key
   | _ => none
+
+/-- a specifier without `(key)`: it formats the mapping itself, i.e. the whole attribute dictionary of the record -/
+def isBare : Item → Bool
+  | .field none .. => true
+  | _ => false
+
+/-- what a format with a specifier without `(key)` (an accepted format has at most one: a leading `%s`, `%r` or `%a`)
+    needs from the record: `repr()` works on EVERY attribute.  Formats without such a specifier need nothing. -/
+def BareOk (fmt : Str) (r : Dict) : Prop := (∃ it ∈ parse (effective fmt), isBare it = true) → Printable r
 
 /-- conversion specifiers (complete or not), as opposed to literal text and `%%` -/
 def isSpecifier : Item → Bool
